@@ -105,8 +105,8 @@ impl Prop for C07 {
       name: "trees x all fault points",
       source: Cases::Generated(
         Box::new(|| (tree(GenCfg::wild()), 0usize..4).prop_map(|(spec, step)| Case { spec, step }).boxed()),
-        40_000,
-        1_500_000,
+        300_000,
+        4_000_000,
       ),
     }]
   }
